@@ -63,6 +63,7 @@ structure ReadsAgree (s : OMD K V) : Prop where
   contains : ∀ k, s.contains k = Spec.has k s.cells
   len      : s.len = Spec.len s.cells
   reversed : s.reversed = .ok (Spec.reversed s.cells)
+  todict   : s.todict = .ok (Spec.items s.cells)
   todictM  : s.todictM = Spec.todictM s.cells
   counts   : s.counts = .ok (Spec.counts s.cells)
 
@@ -71,12 +72,47 @@ theorem reads_agree (s : OMD K V) (h : Inv s) : ReadsAgree s :=
     items := items_spec h, values := values_spec h
     getitem := getitem_spec h, get := get_spec h, getlist := getlist_spec h
     contains := contains_spec h, len := len_spec h, reversed := reversed_spec h
-    todictM := todictM_spec h, counts := counts_spec h }
+    todict := todict_spec h, todictM := todictM_spec h, counts := counts_spec h }
 
 /-- after every prefix of every history all reads of both registers agree with the plain list -/
 theorem reads_agree_history (ops : List (HOp K V)) (r : HState K V × Out K V)
     (hr : r ∈ hrun (HState.init : HState K V) ops) : ReadsAgree r.1.s ∧ ReadsAgree r.1.t :=
   ⟨reads_agree _ (inv_history ops r hr).s, reads_agree _ (inv_history ops r hr).t⟩
+
+/-- "no operation leaves the mapping in a state where its reads disagree with one another or
+    raise": the relations among the model's own readers, with no reference to the specification.
+    They hold in every state with `Inv`, hence (by `inv_history`) after every prefix of every history. -/
+theorem reads_mutually_consistent (s : OMD K V) (h : Inv s) :
+    s.len = s.keys.length ∧
+    (∀ k, s.contains k = true ↔ k ∈ s.keys) ∧
+    (∀ k, s.contains k = true ↔ k ∈ s.keysM) ∧
+    (∀ k, s.getlist k = (s.itemsM.filter (isK k)).map (·.2)) ∧
+    s.keysM = s.itemsM.map (·.1) ∧ s.valuesM = s.itemsM.map (·.2) ∧
+    s.reversed = .ok s.keys.reverse ∧
+    (∀ k, s.contains k = false ↔ s.getitem k = .error .keyError) ∧
+    (∃ l, s.items = .ok l ∧ s.values = .ok (l.map (·.2)) ∧ s.todict = .ok l ∧ l.map (·.1) = s.keys ∧
+      ∀ p ∈ l, s.getitem p.1 = .ok p.2 ∧ s.get p.1 = .ok (some p.2) ∧ (s.getlist p.1).getLast? = some p.2) := by
+  have r := reads_agree s h
+  refine ⟨r.len, ?_, ?_, r.getlist, rfl, rfl, r.reversed, ?_, ?_⟩
+  · intro k; rw [r.contains, has_iff, r.keys]; exact (mem_keys _ _).symm
+  · intro k; rw [r.contains, has_iff]; exact valsOf_ne_nil_iff _ _
+  · intro k
+    rw [r.contains, r.getitem]
+    unfold Spec.getitem
+    cases hl : Spec.last k s.cells with
+    | none =>
+      have : ¬ Spec.has k s.cells = true := fun hh => by
+        have := (last_isSome_iff k s.cells).mpr ((has_iff k s.cells).mp hh); simp [hl] at this
+      simp [this]
+    | some v =>
+      have : Spec.has k s.cells = true := (has_iff k s.cells).mpr ((last_isSome_iff k s.cells).mp (by simp [hl]))
+      simp [this]
+  · refine ⟨Spec.items s.cells, r.items, ?_, r.todict, ?_, ?_⟩
+    · rw [r.values]; rfl
+    · rw [r.keys]; exact items_fst _
+    · intro p hp
+      have hl := mem_items hp
+      refine ⟨by rw [r.getitem]; simp [Spec.getitem, hl], by rw [r.get, hl], by rw [r.getlist]; exact hl⟩
 
 /-- the only exception a single-key read raises is the KeyError of an absent key -/
 theorem getitem_error_iff (s : OMD K V) (h : Inv s) (k : K) :
